@@ -100,6 +100,20 @@ CLAIMED["C11"] = {
   "technique": "Lean 4 inductive invariant + kernel-checked defect witness + lock-step correspondence",
 }
 
+_EN_NOTE = "Trusted: Lean kernel + audited axioms; extractor (FORBIDDEN list, shape flags of backend.rs/raw.rs: poison-tolerant lock sites, idempotent init); the OS verdict table of Model/Env.lean (validated by these probes on this kernel); std::sync::Mutex poisoning and unwinding semantics (a panic in a destructor during unwinding aborts) modelled by hand; probes run in forked children and observe results, all 64 dispositions, Arc counts, descriptor validity and descriptor counts."
+CLAIMED["C12"] = {
+  "text": "Lean 4 theorems on the instance model L10 with the source's current shape (generated flags): for every registry state, every instance state (also a poisoned one), every number in Int and both exfiltrator kinds, a rejected add_signal leaves everything observable of the registry (C05's abstraction) and the instance's watched set and ids unchanged; re-adding a watched signal is a literal no-op; neither add_signal, drop nor a failing constructor can abort; drop never panics and removes exactly the instance's own ids from every signal's action list (nobody else's); kernel-checked witnesses that the two shapes before the fix: commits violate this (wedged instance + leaked registrations; retry panic). Tied to /repo by the regenerated shape flags, by random forked histories on the real Signals / SignalsInfo<WithRawSiginfo> (new / add on instance and handle clones / check by real raise / drop / usable) compared with the model and judged by the property monitor, and by scheduled scenarios in which handle clones add the same signals concurrently followed by a leak probe after dropping everything.",
+  "design_ref": "DESIGN.md section 6 C12, section 7.2, 7.3",
+  "note": _EN_NOTE + " Two genuine defects found by this check were repaired (fix: bd23c21, c523b70; known_findings.json). Concurrent add_signal is covered by the correspondence / leak probe, not by a theorem (the L10 model is sequential).",
+  "technique": "Lean 4 theorems over a sequential instance model with generated shape flags + forked differential histories + scheduled concurrent-add leak probe",
+}
+CLAIMED["C14"] = {
+  "text": "Lean 4 theorems for every registry state, every entry point, every number in Int and every environment: a checked entry point given a forbidden signal panics with the state literally unchanged and nothing retained; any entry point given a number the OS rejects returns an error with the state unchanged (for set-only rejections only the inert fallback differs, observationally unchanged); unchecked entry points register whatever the OS accepts; the iterator front-ends refuse forbidden / negative / too large / OS-rejected numbers leaving registry and watched set as before; the forbidden list regenerated from the source is exactly KILL, STOP, ILL, FPE, SEGV; witness that before the fix a constructor given a forbidden signal after a valid one aborted. Tied to /repo by an exhaustive forked table: 11 plain entry points + 4 iterator entry points x every number -2..130 and extremes x contexts (fresh, after other registrations, after an unchecked registration of the same forbidden signal), compared with the model and judged by the property monitor (result kind, all 64 dispositions, Arc counts / descriptor validity, follow-up usability, no abort).",
+  "design_ref": "DESIGN.md section 6 C14",
+  "note": _EN_NOTE + " The genuine defect (process abort in the iterator constructors) was repaired by fix: bd23c21.",
+  "technique": "Lean 4 theorems over all states/numbers + exhaustive forked entry-point table",
+}
+
 NOT_YET = {}
 ALL = ["C%02d" % i for i in range(1, 19)]
 
